@@ -46,6 +46,7 @@ import PyhamModel.Lemmas.CheckerSound
 import PyhamModel.Lemmas.LineageCount
 import PyhamModel.Lemmas.FilterIdentical
 import PyhamModel.Lemmas.FilterFaults
+import PyhamModel.Lemmas.Meaning
 namespace Pyham.Props
 open Pyham
 
@@ -221,6 +222,26 @@ theorem C06_lost_iff (H : Ham) (hw : H.WFc) (a d : Taxon) (x : Loc) (hx : x ∈ 
 theorem C06_number_duplications (H : Ham) (a d : Taxon) :
     (hogsMap H a d).ndup = ((hogsMap H a d).dupl.map fun e => e.2.length - 1).sum :=
   Pyham.C06_number_duplications H a d
+
+/-- **retained**: `(x, n)` is an item of RETAINED iff `n` is a member of the descendant genome whose upward search
+    ends at the ancestral gene `x` without meeting a duplication (with `C06_reported_under`: `x` is the unique
+    ancestor of `n` at the ancestral taxon and neither `n` nor anything strictly between arose by duplication) -/
+theorem C06_retained_iff (H : Ham) (hw : H.WFc) (a d : Taxon) (x n : Node) :
+    (x, n) ∈ (hogsMap H a d).retained ↔ ∃ r ∈ H.nodesAt d, r.node = n ∧ search a r = (some x, false) :=
+  Pyham.C06_retained_iff H hw a d x n
+
+/-- **duplicated**: `n` is in the DUPLICATE list of the ancestral gene with identity `k` iff `n` is a member of the
+    descendant genome whose upward search ends at that gene having met a duplication -/
+theorem C06_duplicated_iff (H : Ham) (a d : Taxon) (k : Key) (n : Node) :
+    (∃ e ∈ (hogsMap H a d).dupl, e.1.key = k ∧ n ∈ e.2) ↔
+      ∃ r ∈ H.nodesAt d, r.node = n ∧ ∃ x, search a r = (some x, true) ∧ x.key = k :=
+  Pyham.C06_duplicated_iff H a d k n
+
+/-- the keys of RETAINED and DUPLICATE are genes of the ancestral genome; no DUPLICATE list is empty -/
+theorem C06_entries_sound (H : Ham) (hw : H.WFc) (a d : Taxon) :
+    (∀ e ∈ (hogsMap H a d).retained, e.1.tx = a ∧ ∃ post, (⟨e.1, post⟩ : Loc) ∈ H.nodesAt a) ∧
+    (∀ e ∈ (hogsMap H a d).dupl, e.1.tx = a ∧ (∃ post, (⟨e.1, post⟩ : Loc) ∈ H.nodesAt a) ∧ e.2 ≠ []) :=
+  Pyham.C06_entries_sound H hw a d
 
 /-- C06 for every loaded consistent input -/
 theorem C06_on_loaded_consistent_input (D : Dataset) (hc : D.Consistent) :
